@@ -32,6 +32,7 @@ RULE = (
     "file, and the explicit text is still rendered. Non-trivial: source and target in different directories, or an "
     "anchor / label / file target; distinct by (project, link)."
 )
+RULE += (" Documents may be named like a directory beside them ('d.md' next to 'd/'); a link naming only a directory is a missing target.")
 ASSUMPTIONS = [
     "names are unique by construction, so myst.xref_ambiguous cannot arise; the text of an empty-text link to a "
     "missing target is unconstrained",
